@@ -398,3 +398,91 @@ _base_scn_sa2 = scenarios
 
 def scenarios():
     return _base_scn_sa2() + [sort_alias()]
+
+
+def add_key():
+    """PGPKeyring._add_key(key): a key object that is already in the table changes nothing; otherwise it is entered under its object id,
+    listed among the public or the private top-level keys exactly when it has no parent, given the aliases fingerprint, key id, short id and
+    the name, the (non-empty) comment and the (non-empty) e-mail of every user id - all leading to ITS id -, and every subkey of it is
+    added the same way (with its own id). `_add_alias` is a callee (own contract)."""
+    label = 'C19/PGPKeyring._add_key'
+    KEYC, UIDC, FPC = 'pgpy.pgp.PGPKey', 'pgpy.pgp.PGPUID', 'pgpy.types.Fingerprint'
+
+    def gen(repo):
+        r = scn.Run(repo, RING, '_add_key', label)
+        ex, st = r.ex, r.st
+        ring = E.VObj(RING, 'ring')
+        key, sub, other = E.VObj(KEYC, 'key'), E.VObj(KEYC, 'sub'), E.VObj(KEYC, 'other')
+        loaded, pub, has_parent = z3.Bool('the_key_object_is_already_in_the_table'), z3.Bool('key_is_public'), z3.Bool('key_has_a_parent')
+        ex._ids = {'key': 1001, 'sub': 1002, 'other': 1003}          # the executor's model of id(): an injective function of the object reference
+        table = E.VObj('abstract:KeyTable', 'keys')
+        r.set('ring', '_keys', table)
+
+        def t_contains(ex, st, o, a):
+            k = ex.as_int(a[0])
+            added = st.ghost.get('entered', ())
+            return [(st, E.VBool(z3.Or(z3.And(loaded, k == 1001), z3.BoolVal(any(i == kk for kk, _ in added for i in [z3.simplify(k).as_long() if z3.is_int_value(z3.simplify(k)) else None])))))]
+
+        def t_set(ex, st, o, a):
+            st.ghost['entered'] = st.ghost.get('entered', ()) + ((z3.simplify(ex.as_int(a[0])).as_long(), a[1]),)
+            return [(st, E.VNone())]
+        r.hook('abstract:KeyTable', '__contains__', scn.method_hook(t_contains))
+        r.hook('abstract:KeyTable', '__setitem__', scn.method_hook(t_set))
+        r.set('ring', '_pubkeys', ex.new_list(st, [E.VInt(1003)]))
+        r.set('ring', '_privkeys', ex.new_list(st, []))
+        r.hook(KEYC, 'parent', lambda ex, st, o, a: [(st, key if o.ref == 'sub' else (E.VNone() if o.ref != 'key' else None))] if o.ref != 'key' else
+               [(s2, (other if t else E.VNone())) for s2, t in ex.fork(st, has_parent)])
+        r.hook(KEYC, 'is_public', lambda ex, st, o, a: [(st, E.VBool(pub))])
+        FPR = {n: E.VStr(z=z3.Const('FINGERPRINT_OF_' + n, B), cls=FPC) for n in ('key', 'sub')}
+        r.hook(KEYC, 'fingerprint', lambda ex, st, o, a: [(st, FPR[o.ref])])
+        r.hook(FPC, 'keyid', lambda ex, st, o, a: [(st, E.VStr(z=z3.Const('KEYID_OF_' + ('key' if o is FPR['key'] else 'sub'), B)))])
+        r.hook(FPC, 'shortid', lambda ex, st, o, a: [(st, E.VStr(z=z3.Const('SHORTID_OF_' + ('key' if o is FPR['key'] else 'sub'), B)))])
+        uids = [E.VObj(UIDC, 'uid0'), E.VObj(UIDC, 'uid1')]
+        r.hook(KEYC, 'userids', lambda ex, st, o, a: [(st, ex.new_list(st, uids if o.ref == 'key' else []))])
+        r.hook(KEYC, 'subkeys', lambda ex, st, o, a: [(st, E.VDict([(E.VStr(s='SUBID'), sub)]) if o.ref == 'key' else E.VDict([]))])
+        for f in ('name', 'comment', 'email'):
+            r.hook(UIDC, f, (lambda f: lambda ex, st, o, a: [(st, E.VStr(z=z3.Const('%s_OF_%s' % (f.upper(), o.ref), B)))])(f))
+
+        def add_alias_(ex, st, o, a):
+            st.ghost['aliases'] = st.ghost.get('aliases', ()) + ((a[0], ex.as_int(a[1])),)
+            return [(st, E.VNone())]
+        r.hook(RING, '_add_alias', scn.method_hook(add_alias_))
+        for pi, (s, v) in enumerate(r.call(ring, [key])):
+            if isinstance(v, E.Raise):
+                r.oblige(s, 'safety(%s)/p%d' % (v.exc.split(':')[0], pi), z3.BoolVal(False), v.where)
+                continue
+            entered, al = s.ghost.get('entered', ()), s.ghost.get('aliases', ())
+            pubs, privs = [x.conc() for x in ex.items(s.heap[('ring', '_pubkeys')], s)], [x.conc() for x in ex.items(s.heap[('ring', '_privkeys')], s)]
+            nothing = not entered and not al and pubs == [1003] and privs == []
+            r.oblige(s, 'a-key-object-already-in-the-table-changes-nothing/p%d' % pi, z3.Implies(loaded, z3.BoolVal(nothing)))
+            if nothing:
+                r.oblige(s, 'nothing-happens-only-then/p%d' % pi, loaded)
+                continue
+            r.oblige(s, 'the-key-and-its-subkey-are-entered-under-their-own-ids/p%d' % pi,
+                     z3.BoolVal([(k, getattr(o, 'ref', None)) for k, o in entered] == [(1001, 'key'), (1002, 'sub')]))
+            r.oblige(s, 'a-top-level-key(no-parent)-is-listed-with-its-half,once;a-key-with-a-parent-and-the-subkey-are-not/p%d' % pi,
+                     z3.And(z3.BoolVal(1002 not in pubs + privs and pubs.count(1001) + privs.count(1001) <= 1 and pubs[:1] == [1003]),
+                            z3.BoolVal(1001 in pubs) == z3.And(z3.Not(has_parent), pub), z3.BoolVal(1001 in privs) == z3.And(z3.Not(has_parent), z3.Not(pub))))
+            want = [('FINGERPRINT_OF_key', 1001), ('KEYID_OF_key', 1001), ('SHORTID_OF_key', 1001)]
+            got = []
+            for a0, i0 in al:
+                nm = str(a0.z) if isinstance(a0, E.VStr) and a0.z is not None else repr(a0)
+                got.append((nm, z3.simplify(i0).as_long() if z3.is_int_value(z3.simplify(i0)) else None))
+            base = [g for g in got if not g[0].startswith(('NAME_', 'COMMENT_', 'EMAIL_'))]
+            r.oblige(s, 'aliases:fingerprint,key-id,short-id-of-the-key-and-of-its-subkey,each-leading-to-its-own-object/p%d' % pi,
+                     z3.BoolVal(base == want + [('FINGERPRINT_OF_sub', 1002), ('KEYID_OF_sub', 1002), ('SHORTID_OF_sub', 1002)]))
+            for u in ('uid0', 'uid1'):
+                names = [g for g in got if g[0].endswith('_OF_' + u)]
+                r.oblige(s, 'aliases-of-%s:its-name-always,comment-and-e-mail-when-not-empty,leading-to-the-key/p%d' % (u, pi),
+                         z3.And(z3.BoolVal(('NAME_OF_' + u, 1001) in names and all(i == 1001 for _, i in names)),
+                                z3.BoolVal(('COMMENT_OF_' + u, 1001) in names) == (z3.Length(z3.Const('COMMENT_OF_' + u, B)) > 0),
+                                z3.BoolVal(('EMAIL_OF_' + u, 1001) in names) == (z3.Length(z3.Const('EMAIL_OF_' + u, B)) > 0)))
+        return r.result()
+    return Scenario(label, RING + '._add_key', gen, props=('C19',))
+
+
+_base_scn_ak = scenarios
+
+
+def scenarios():
+    return _base_scn_ak() + [add_key()]
